@@ -24,6 +24,16 @@ def grow_cases(ctx):
             out.append((prog, '0a' * k + '>1>1>1>1>1' + '>2>2', cf))
     return out
 
+def shrink_cases(ctx):
+    """a unique add / add_replace frozen k steps into its operation - it has read the old size and stands on a bucket of the upper half as its insertion predecessor - while a
+    shrink runs as far as it can: every level it removes, the first included, has to wait for that operation's read-side section; then lookups and traversals (each entry is handed to the table once)"""
+    out = []
+    for prog, cf in (('Z0/U6L6T/L6', ('8', '8', 'o')), ('Z1/U9L9T/L9', ('8', '8', 'o')), ('Z0/R8L8T/L8U6', ('8', '8', 'o')), ('Z1/U6L6T', ('8', '8', 'c')), ('Z2/U9L9T/U8L8', ('8', '8', 'o'))):
+        for k in range(0, 40 if ctx.quick() else 70):
+            out.append((prog, '1b' * k + '>0' + '1b' * 200 + '0a' * 300 + '>1>1>1>1' + '>2>2', cf))
+            if k % 2 == 0: out.append((prog, '1b' * k + '0a' * 30 + '1b' * 3 + '0a' * 300 + '1b' * 200 + '>1>1>1>1' + '>2>2', cf))
+    return out
+
 def key_never_absent(prog, raw):
     """a key continuously present while it is being replaced is found by every concurrent lookup: programs whose only removals are replacements of a key inserted before the lookups began"""
     ev = X.events(raw); hist, _, _ = X.history(ev)
@@ -48,7 +58,7 @@ def run(ctx):
     ximpl = X.build(ctx)
     fdriver = build_model_driver(ctx, 'flagproto', 'ExtractFlagProto.v', 'flagproto_driver.ml')
     if ximpl:
-        X.run_cases(ctx, 'unique adds / replace', ximpl, X.gen(ctx, XPROGS, 400 if ctx.quick() else 6000, 'C06x', [('2', '8', 'o'), ('1', '8', 'o'), ('4', '8', 'c')]) + walker_cases(ctx) + grow_cases(ctx), flag_driver=fdriver, extra_oracle=key_never_absent)
+        X.run_cases(ctx, 'unique adds / replace', ximpl, X.gen(ctx, XPROGS, 400 if ctx.quick() else 6000, 'C06x', [('2', '8', 'o'), ('1', '8', 'o'), ('4', '8', 'c')]) + walker_cases(ctx) + grow_cases(ctx) + shrink_cases(ctx), flag_driver=fdriver, extra_oracle=key_never_absent)
     return finish(ctx, trusted=L.TRUSTED + ['extraction of FlagProto: ExtrOcamlBasic only; ocaml/flagproto_driver.ml; projection tools/lfhtx_common.py project_flags() (trusted)',
                   'modelled by FlagProto: the flag bits and ownership successes of one next word (pointer changes abstracted to "link" accesses); traversal-level uniqueness under concurrency is an oracle, the theorem is sequential'],
                   rule='corpus + parking sweeps + bursty schedules of concurrent add_unique / add_replace / replace / del / lookup + next_duplicate / traversal on keys shared by three entries, with resizes')
